@@ -186,6 +186,8 @@ pub struct Registration {
 	pub step: u64,
 	/// a spontaneous payment: nothing was registered, the sender chose this preimage and put it in the onion
 	pub keysend: Option<PaymentPreimage>,
+	/// the minimum final CLTV delta the recipient asked for when registering (None: the library's default)
+	pub custom_final: Option<u16>,
 }
 /// How a send deviates from an ordinary single payment of a fresh registration.
 #[derive(Clone, Debug, Default)]
@@ -213,6 +215,8 @@ pub struct SendOpts {
 	/// relative to the forwarder's advertised policy; negative values must be refused by the forwarder
 	pub skimp_fee: Option<i64>,
 	pub skimp_delta: Option<i32>,
+	/// register with this custom minimum final CLTV delta (the send's `final_cltv` is chosen around it by the caller)
+	pub custom_final: Option<u16>,
 	pub class: &'static str,
 }
 
@@ -1139,16 +1143,16 @@ impl World {
 			None if opts.keysend => {
 				let preimage = PaymentPreimage(self.rng.bytes());
 				let hash = { use bitcoin::hashes::Hash as _; PaymentHash(bitcoin::hashes::sha256::Hash::hash(&preimage.0).to_byte_array()) };
-				self.regs.push(Registration { idx: self.regs.len(), dst, hash, secret: PaymentSecret([0; 32]), min_value: None, step: self.step, keysend: Some(preimage) });
+				self.regs.push(Registration { idx: self.regs.len(), dst, hash, secret: PaymentSecret([0; 32]), min_value: None, step: self.step, keysend: Some(preimage), custom_final: None });
 				self.regs.len() - 1
 			},
 			None => {
 				let (expiry_secs, custom_cltv) = match opts.expired {
 					Some(c) => (1u32, c),
-					None => (7200u32, None),
+					None => (7200u32, opts.custom_final),
 				};
 				let (hash, secret, _) = self.nodes[dst].mgr.create_inbound_payment(opts.min_value, expiry_secs, custom_cltv, None).map_err(|_| "create_inbound_payment failed".to_string())?;
-				self.regs.push(Registration { idx: self.regs.len(), dst, hash, secret, min_value: opts.min_value, step: self.step, keysend: None });
+				self.regs.push(Registration { idx: self.regs.len(), dst, hash, secret, min_value: opts.min_value, step: self.step, keysend: None, custom_final: custom_cltv });
 				if opts.expired.is_some() {
 					// block time (600 s per block) passes the expiry and the two hours the library adds to it
 					self.note(format!("EXPIRE registration {} of node{} (custom final cltv delta {:?}): 15 blocks pass", self.regs.len() - 1, dst, custom_cltv));
